@@ -191,6 +191,13 @@ def run(world, rep, tier, only=None):
                     o0 = T.strip(oth)
                     is_sum = isinstance(o0, dict) and o0.get("k") == "b" and o0.get("o") in ("+", "-", "*")
                     is_count = T.const(oth) is not None or any(w_ in txt for w_ in ("count", "num_", "_max", "len"))
+                    lf_ = linear_form(oth, f, depth=2) if is_sum else None
+                    last_incl = lf_ is not None and lf_.get(1, 0) == -1 and sum(1 for k_, v_ in lf_.items() if k_ != 1 and v_ == 1) >= 2
+                    if last_incl:
+                        # start + len - 1: the number of the last block of a range, a block number like any other
+                        rep.ob("C02.e", site(f, "last block of a range compared exclusively with the block count (line %d)" % line),
+                               o in (">=", "<"), "`%s`: `start + len - 1` is a block number and is bad when it is >= ext2fs_blocks_count()" % T.pp(x)[:70])
+                        continue
                     if is_sum or is_count:
                         rep.examined()
                         continue
